@@ -9,7 +9,7 @@ import (
 )
 
 func main() {
-	rtgen.Main("C05", "Router.check_c05",
+	rtgen.MainX("C05", "Router.check_c05",
 		"valid-by-construction packets at every position kind on external, sibling and internal ingress "+
 			"(single- and multi-router configurations), with SrcIA/DstIA replaced by {local, a neighbour, random}, "+
 			"source/destination hosts of every kind (IPv4, IPv6, service, v4-mapped, unspecified, unsupported type), "+
